@@ -522,3 +522,170 @@ class MdfInit(Contract):
             ("design-variables-that-are-inputs-of-the-mda-and-no-couplings-are-kept",
              z3.ForAll([x], z3.Implies(z3.And(v0.has(x), g.member[x], z3.Not(M17._among(cp, x, cp.n))), v1.has(x)), patterns=[v0.has(x)])),
         ]
+
+
+# ============================================================================ DesignSpace.filter (in place, a set of names to keep)
+def _filter_state(c, s1, upto):
+    """The design space after the first `upto` entry variables were handled: a handled variable is still there iff it is to be kept."""
+    v0, v1 = D2.V(c.old.self), D2.V(s1)
+    keep = c.old.keep_variables
+    x = z3.Const("x!fs", STR)
+    return [("handled-variables-kept-iff-asked", z3.ForAll([x], z3.Implies(z3.And(v0.has(x), v0.pos[x] < upto), v1.has(x) == keep.member[x]), patterns=[v0.has(x)])),
+            ("only-entry-variables-with-their-definitions", z3.ForAll([x], z3.Implies(v1.has(x), z3.And(v0.has(x), v1.vals[x] == v0.vals[x])), patterns=[v1.has(x)])),
+            ("unhandled-variables-kept", z3.ForAll([x], z3.Implies(z3.And(v0.has(x), v0.pos[x] >= upto), v1.has(x)), patterns=[v0.has(x)]))]
+
+
+def _filter_inv0(c, k):
+    s = c.new.self
+    return D2.wf(s) + _filter_state(c, s, k)
+
+
+def _filter_inv1(c, k):
+    """While checking that the names to keep are known: the design space is not touched, the names seen so far are variables."""
+    v1 = D2.V(c.new.self)
+    keep = c.old.keep_variables
+    x = z3.Const("x!f1", STR)
+    return [("checked-names-are-known", z3.ForAll([x], z3.Implies(z3.And(keep.member[x], c.seq.pos[x] < k), v1.has(x)), patterns=[keep.member[x]]))]
+
+
+def _some_kept_name_unknown(c):
+    x = z3.Const("x!fu", STR)
+    return z3.Exists([x], z3.And(c.old.keep_variables.member[x], z3.Not(D2.V(c.old.self).has(x))))
+
+
+@register
+class DsFilter(Contract):
+    """design_space.filter(names) in place: exactly the variables whose names are given are kept, with their definitions; the design space
+    stays well-formed; ValueError iff a given name is no variable."""
+
+    targets = (D2.DS + ".filter",)
+    prop = ("C17",)
+    params = {"keep_variables": TSet(TStr)}
+    modifies = ("self",)
+    raises = {"ValueError": _some_kept_name_unknown}
+    loops = {0: LoopSpec(anchor=None, modifies=("self",), inv=_filter_inv0, local_types={"name": TStr}),
+             1: LoopSpec(anchor="keep_variables", inv=_filter_inv1, local_types={"name": TStr})}
+
+    def requires(self, c):
+        # (this contract is about the in-place use, the default copy=False)
+        return D2.wf(c.old.self) + [("filters-in-place(copy=False)", z3.BoolVal(c.arg("copy") is False))]
+
+    def ensures(self, c):
+        s1 = c.new.self
+        v0, v1 = D2.V(c.old.self), D2.V(s1)
+        keep = c.old.keep_variables
+        x = z3.Const("x!fe", STR)
+        # (stated where the function is verified; at a call site the summary has no result value - no in-tree caller under contract uses it)
+        ret = [("returns-the-design-space-itself", z3.BoolVal(c.result_value == c.arg("self")))] if hasattr(c, "locals") else []
+        return D2.wf(s1) + ret + [
+            ("only-asked-variables-are-kept", z3.ForAll([x], z3.Implies(v1.has(x), z3.And(v0.has(x), keep.member[x])), patterns=[v1.has(x)])),
+            ("asked-variables-are-kept", z3.ForAll([x], z3.Implies(z3.And(v0.has(x), keep.member[x]), v1.has(x)), patterns=[v0.has(x)])),
+            ("definitions-kept", z3.ForAll([x], z3.Implies(v1.has(x), v1.vals[x] == v0.vals[x]), patterns=[v1.has(x)]))]
+
+
+# ============================================================================ DisciplinaryOpt: the design space is restricted to the inputs of the (chain of) disciplines
+from pyvc.plug_c17b import TRaw, TValTuple, inputs_of  # noqa: E402
+
+GET_ALL_INPUTS = "gemseo.disciplines.utils.get_all_inputs"
+CHAIN = "gemseo.core.chains.chain.MDOChain"
+chain_of = z3.Function("c17_chain_of", DISCS.sort(), ValS)
+schema(DOPT + "#filter", {"_BaseFormulation__disciplines": DISCS, "_DisciplinaryOpt__top_level_disciplines": TValTuple(1), "optimization_problem": TObj(OP, schema_key=OP + "#c17mdf")})
+schema(DOPT + "#init", {"_BaseFormulation__disciplines": DISCS, "_DisciplinaryOpt__top_level_disciplines": TRaw,
+                        "optimization_problem": TObj(OP, schema_key=OP + "#c17mdf")})
+
+
+def _in_list(lst, x, tag):
+    i = z3.Int(f"i!{tag}")
+    return z3.Exists([i], z3.And(0 <= i, i < lst.n, lst.elems[i] == x))
+
+
+def _tuple_inputs(discs):
+    """x is an input of one of the (opaque) disciplines of a concrete tuple."""
+    return lambda x: z3.Or(*[inputs_of(d.term)[x] for d in discs]) if discs else z3.BoolVal(False)
+
+
+@register
+class GetAllInputsAbstract(Contract):
+    targets = (GET_ALL_INPUTS,)
+    prop = ("C17",)
+    returns = NAME_LIST
+    trusted = True
+    description = ("assumed: get_all_inputs(disciplines) returns a new (sorted, duplicate-free) list holding exactly the input names of the given "
+                   "disciplines (no scenario among them), without any effect")
+
+    def ensures(self, c):
+        x = z3.Const("x!gi", STR)
+        ds = c.arg("disciplines")
+        top = _tuple_inputs(ds) if isinstance(ds, tuple) else top_inputs_member(c.old.disciplines.elems, c.old.disciplines.n)
+        return [("the-input-names", z3.ForAll([x], _in_list(c.result, x, "gi") == top(x)))]
+
+
+def _dopt_kept(v0, v1, top):
+    x = z3.Const("x!dk", STR)
+    return [("only-inputs-of-the-top-level-discipline-are-kept", z3.ForAll([x], z3.Implies(v1.has(x), z3.And(v0.has(x), top(x))), patterns=[v1.has(x)])),
+            ("design-variables-that-are-inputs-are-kept", z3.ForAll([x], z3.Implies(z3.And(v0.has(x), top(x)), v1.has(x)), patterns=[v0.has(x)])),
+            ("definitions-kept", z3.ForAll([x], z3.Implies(v1.has(x), v1.vals[x] == v0.vals[x]), patterns=[v1.has(x)]))]
+
+
+@register
+class DoptFilterDesignSpace(Contract):
+    """The design space keeps exactly its variables that are inputs of the top-level discipline (the discipline, or the chain of the
+    disciplines), with their definitions, and stays well-formed."""
+
+    targets = (DOPT + "._filter_design_space",)
+    prop = ("C17",)
+    self_schema = DOPT + "#filter"
+    c17b = True
+    modifies = ("self.optimization_problem.design_space",)
+
+    def requires(self, c):
+        return D2.wf(_ds17(c.old))
+
+    def ensures(self, c):
+        s1 = _ds17(c.new)
+        return D2.wf(s1) + _dopt_kept(D2.V(_ds17(c.old)), D2.V(s1), _tuple_inputs(c.old.self._DisciplinaryOpt__top_level_disciplines))
+
+
+@register
+class DoptTopLevelDisciplines(Contract):
+    targets = (DOPT + ".get_top_level_disciplines",)
+    prop = ("C17",)
+    self_schema = DOPT + "#filter"
+    inline_ok = True
+
+    def ensures(self, c):
+        return [("the-stored-top-level-discipline", z3.BoolVal(c.result_value is c.old.self._DisciplinaryOpt__top_level_disciplines))]
+
+
+@register
+class DoptInit(Contract):
+    """DisciplinaryOpt(disciplines, objective, design space): the top-level discipline is the discipline itself, or the chain of the
+    disciplines when there are several; the user's design space is the problem's and is restricted to its variables that are inputs of this
+    top-level discipline (definitions kept); IndexError for an empty list of disciplines."""
+
+    targets = (DOPT + ".__init__",)
+    prop = ("C17",)
+    self_schema = DOPT + "#init"
+    c17b = True
+    c17b_init = True
+    c17b_opaque_values = {CHAIN: "c17_chain_of"}
+    params = {"disciplines": DISCS, "objective_name": TStr, "design_space": TObj(D2.DS)}
+    modifies = ("self", "design_space")
+    raises = {"IndexError": lambda c: c.old.disciplines.n == 0}
+
+    def requires(self, c):
+        return D2.wf(c.old.design_space)
+
+    def ensures(self, c):
+        s1 = c.new.self
+        L = c.old.disciplines
+        top = s1._DisciplinaryOpt__top_level_disciplines
+        ok = isinstance(top, tuple) and len(top) == 1 and hasattr(top[0], "term")
+        out = [("one-top-level-discipline", z3.BoolVal(ok))]
+        if not ok:
+            return out
+        expected = z3.If(L.n > 1, chain_of(DISCS.dt.mk(L.n, L.elems)), L.elems[0])
+        return out + D2.wf(c.new.design_space) + [
+            ("the-discipline-or-the-chain-of-the-disciplines", top[0].term == expected),
+            ("problem-holds-the-design-space", z3.BoolVal(s1.optimization_problem.design_space.ref == c.arg("design_space"))),
+        ] + _dopt_kept(D2.V(c.old.design_space), D2.V(c.new.design_space), _tuple_inputs(top))
